@@ -338,6 +338,9 @@ func execCache(ops []string) string {
 				return "bad-op"
 			}
 			best := cacheHash(atoi(op[5:]))
+			if atoi(op[5:]) == 0 {
+				best = chainhash.Hash{} // id 0 is the all-zero hash a new cache starts with
+			}
 			err := c.Flush(flushMode(op[1]), op[2] == '1', op[3] == '1', best)
 			res = "ok"
 			if err != nil {
